@@ -753,3 +753,38 @@ def r13_bounded_queues(ctx, files, rule='R13q'):
         if not bad:
             run.ok(rule, m.relpath, m.name, 'no queue, or only queues of provably positive capacity')
     return n
+
+
+def sample_rechained(ctx, rule='SMP'):
+    """The in-memory source reads ahead to infer a schema and must hand every row it has read on: in iterable_storage the iterable is
+    consumed in one place only - a bounded slice collected into the sample - and the sample is chained back in front of the rest.  A
+    loop that pulls rows one by one and decides afterwards whether to keep them loses the row it stops on."""
+    run, repo = ctx.run, ctx.repo
+    run.rule(rule, 'SAMPLE-RECHAINED: iterable_storage reads self.iterable only as list(itertools.islice(self.iterable, <bound>)) into the '
+                   'sample and as itertools.chain(<sample>, self.iterable) stored back; no loop, next() or other consumer of it')
+    cls = repo.cls('dataflows.helpers.iterable_loader:iterable_storage')
+    n = 0
+    for m in cls.methods.values():
+        if isinstance(m.node, ast.Lambda):
+            continue
+        mn = ctx.N(m)
+        for x in ast.walk(mn.node):
+            if not (isinstance(x, ast.Attribute) and isinstance(x.ctx, ast.Load) and pseudo(x) == 'self.iterable'):
+                continue
+            par = getattr(x, '_parent', None)
+            n += 1
+            ok = False
+            why = u(par)[:80] if par is not None else ''
+            if isinstance(par, ast.Call) and u(par.func) in ('itertools.islice', 'islice') and par.args and par.args[0] is x:
+                gp = getattr(par, '_parent', None)
+                ok = isinstance(gp, ast.Call) and u(gp.func) == 'list' and len(par.args) == 2
+            elif isinstance(par, ast.Call) and u(par.func) in ('itertools.chain', 'chain') and len(par.args) == 2 and par.args[1] is x:
+                gp = getattr(par, '_parent', None)
+                ok = isinstance(gp, ast.Assign) and pseudo(gp.targets[0]) == 'self.iterable'
+            elif isinstance(par, ast.Return):
+                ok = True            # iter(): the stream is handed out
+            run.check(ok, rule, where(repo, x), m.qualname, 'self.iterable read as bounded slice / chained back / returned',
+                      'rows are pulled from the source outside the bounded sample (%s): a row that is read and not put into the sample '
+                      'that is chained back is lost from the resource' % why)
+    run.floor(rule, n, 3, 'reads of self.iterable')
+    return n
